@@ -57,7 +57,8 @@ def run_check(prop, tier, seed):
         art = {'property': prop, 'class': cls, 'summary': jsonable(v['summary']),
                'count': v['count'], 'payload': v['payload'],
                'tier': tier, 'seed': seed, 'repo': repo.git_info()}
-        if hasattr(mod, 'replay'):
+        if hasattr(mod, 'replay') and not (isinstance(v['payload'], dict) and
+                                           'case_raised' in v['payload']):
             try:
                 o1 = jsonable(mod.replay(v['payload']))
                 o2 = jsonable(mod.replay(v['payload']))
